@@ -33,6 +33,13 @@ func (s *Store) snapshotRevert(revertTo Snapshot) error {
 		return err
 	}
 
+	// Link the new footer to the one it supersedes (both are in the
+	// current file), so that SnapshotPrevious() can still walk back
+	// through the rounds persisted before the revert.
+	if s.footer != nil && s.footer.fileName == fileNameCurr {
+		footer.PrevFooterOffset = s.footer.filePos
+	}
+
 	err = s.persistFooter(revertToFooter.SegmentLocs[0].mref.fref.file, footer,
 		persistOptions)
 	if err != nil {
@@ -68,6 +75,7 @@ func (s *Store) revertToSnapshot(revertToFooter *Footer, options StorePersistOpt
 		refs:        1,
 		SegmentLocs: slocs,
 		ss:          revertToFooter.ss,
+		incarNum:    revertToFooter.incarNum,
 	}
 
 	for cName, childFooter := range revertToFooter.ChildFooters {
